@@ -487,6 +487,51 @@ fn unary<B: VOps>(v: &mut B, y: &Y, op: &str, f: &str, a: &Args) -> Out {
             }
         }
         "clone" => vec_out(v.clone()),
+        "clone_push" => {
+            let mut c = v.clone();
+            c.v_reserve(1);
+            if c.capacity() > c.len() {
+                c.push(b);
+                vec_out(c)
+            } else {
+                // a full fixed vector: edit the clone in place instead
+                let mut bits = bits_of(&c);
+                bits.push(a.bit.unwrap_or(0));
+                Out::Vec(bits)
+            }
+        }
+        "write_fail" => {
+            struct Failing(usize);
+            impl std::io::Write for Failing {
+                fn write(&mut self, buf: &[u8]) -> std::io::Result<usize> {
+                    if self.0 == 0 {
+                        return Err(std::io::Error::new(std::io::ErrorKind::Other, "writer full"));
+                    }
+                    let k = buf.len().min(self.0);
+                    self.0 -= k;
+                    Ok(k)
+                }
+                fn flush(&mut self) -> std::io::Result<()> {
+                    Ok(())
+                }
+            }
+            let mut w = Failing(nu);
+            match v.write(&mut w, endian(a)) {
+                Ok(()) => Out::Bytes(v.to_vec(endian(a))),
+                Err(_) => Out::ErrIo,
+            }
+        }
+        "bit_display" => Out::Str(format!("{}", b).chars().map(|c| c.to_string()).collect()),
+        "debug_fmt" => Out::Bool(!format!("{:?}", v).is_empty()),
+        "err_display" => Out::Bool(
+            !format!("{}", ConvertionError::NotEnoughCapacity).is_empty() && !format!("{}", ConvertionError::InvalidFormat(i)).is_empty()
+                && format!("{}", ConvertionError::InvalidFormat(i)).contains(&i.to_string()),
+        ),
+        "bvd_new" => {
+            let data: Vec<u64> = vec![u64::MAX; i];
+            let d = Bvd::new(data.into_boxed_slice(), nu);
+            Out::Num(d.len() as i64)
+        }
         "cmp" => match y {
             // Ord::cmp exists only within one type; handled by the caller for vectors of the same kind
             _ => panic!("harness: cmp handled in exec_inner"),
